@@ -28,6 +28,7 @@ namespace json = llvm::json;
 static llvm::cl::OptionCategory Cat("opnfacts");
 static llvm::cl::opt<std::string> Out("o", llvm::cl::cat(Cat), llvm::cl::init("-"));
 static llvm::cl::opt<std::string> Root("root", llvm::cl::cat(Cat), llvm::cl::init("/repo"));
+static llvm::cl::opt<bool> WithVendored("with-vendored", llvm::cl::cat(Cat), llvm::cl::init(false), llvm::cl::desc("also emit facts for the vendored emulator cores under src/chips/*/"));
 
 struct Ex {
   ASTContext &C;
@@ -335,6 +336,7 @@ static bool repoFile(const std::string &f) {
 }
 // vendored emulator cores are outside the AST rules (IR-level rules cover them)
 static bool vendored(const std::string &f) {
+  if (WithVendored) return false;
   auto p = f.find("/chips/");
   if (p == std::string::npos) return false;
   std::string rest = f.substr(p + 7);
